@@ -215,6 +215,35 @@ func isNilConst(v ssa.Value) bool {
 	return ok && c.Value == nil
 }
 
+// phiCore: a value merged with nil constants only (x on the paths that produce it, nil on the others) is x whenever it
+// is not nil; returns that x, or v itself.
+func phiCore(v ssa.Value) ssa.Value {
+	for i := 0; i < 8; i++ {
+		v = strip(v, false)
+		phi, ok := v.(*ssa.Phi)
+		if !ok {
+			return v
+		}
+		var core ssa.Value
+		n := 0
+		for _, e := range phi.Edges {
+			e = strip(e, false)
+			if isNilConst(e) || e == ssa.Value(phi) {
+				continue
+			}
+			if core == nil || e != core {
+				core = e
+				n++
+			}
+		}
+		if n != 1 {
+			return v
+		}
+		v = core
+	}
+	return v
+}
+
 // ---------------------------------------------------------------- struct fields
 
 // FieldRef identifies a struct field of a named type.
